@@ -4,6 +4,7 @@ package main
 //
 //	ctx     the scan context is already cancelled (extractors that poll it must stop with an error; nobody may crash or hang)
 //	rd      ScanInput.Reader is only an io.Reader (no ReaderAt, no Seeker): the copy-to-memory fallbacks
+//	rderr   … and it fails with an I/O error after half of the file (rderr0: at once): every read-error return
 //	vfs     a virtual file system (fstest.MapFS) and ScanInput.Root == "": the GetRealPath copy-out paths (rpm, dotnet/pe) and every FS lookup
 //	cfg     the extractor's OTHER configuration (altConfig): dpkg IncludeNotInstalled, rpm without timeout, go/binary VersionFromContent,
 //	        java/archive without file-name fallback / hashing, cargo-auditable with build dependencies
@@ -66,13 +67,36 @@ var osVariants = map[string]string{
 	"osub":   "NAME=\"Ubuntu\"\nID=ubuntu\nVERSION_ID=\"22.04\"\nVERSION_CODENAME=jammy\n",
 	"osb":    "NAME=Arch\nID=arch\nBUILD_ID=rolling\n",
 	"osv":    "NAME=x\nVERSION_ID=1\n",
-	"osid":   "ID=gentoo\n",
+	"osid":   "ID=gentoo\nVERSION=\"2.15 stable\"\n",
 	"osnone": "NAME=x\n",
 }
 
 var osVariantNames = []string{"osc", "osrh", "osrk", "osalp", "osub", "osb", "osv", "osid", "osnone"}
 
 type onlyReader struct{ r io.Reader }
+
+// errReader yields the first n bytes and then an I/O error (a medium that fails in the middle of a file); it is only an io.Reader.
+type errReader struct {
+	r io.Reader
+	n int64
+}
+
+func (e *errReader) Read(p []byte) (int, error) {
+	if e.n <= 0 {
+		return 0, errIO
+	}
+	if int64(len(p)) > e.n {
+		p = p[:e.n]
+	}
+	k, err := e.r.Read(p)
+	e.n -= int64(k)
+	if err == io.EOF {
+		err = errIO
+	}
+	return k, err
+}
+
+var errIO = &fs.PathError{Op: "read", Path: "input", Err: fs.ErrInvalid}
 
 func (o onlyReader) Read(p []byte) (int, error) { return o.r.Read(p) }
 
